@@ -5,6 +5,7 @@ import PortusModel.Driver.Ctl
 import PortusModel.Driver.Lang
 import PortusModel.Driver.Rt
 import PortusModel.Driver.Vm
+import PortusModel.Driver.Uid
 /-! `pmodel`: the line-protocol driver around the model's executable definitions. -/
 open Portus.Driver
 
@@ -18,6 +19,7 @@ def dispatch (cmd : String) (args : List String) : String :=
   | "RUN" => runCmd args
   | "VM" => vmCmd args
   | "LOW" => lowCmd args
+  | "UID" => uidCmd args
   | "CMP" => cmp args
   | "AST" => ast args
   | "ORC" => (match args with
